@@ -38,6 +38,7 @@ import (
 	"net"
 	"os"
 	"path/filepath"
+	"sync"
 	"strconv"
 	"time"
 
@@ -302,18 +303,64 @@ func (e *vrdEnv) processor(c vrdCfg, snd zmqSender) *RegProcessor {
 	case "fixed":
 		p.regOverrides = interfaces.Overrides([]interfaces.RegOverride{overrides.NewFixedPrefixOverride(e.fixed)})
 	}
-	// exactly what newRegProcessor / NewRegProcessorNoAuth do with the configuration values
-	p.enforceSubnetOverrides = c.Enforce
-	pm, pp := validateOverridePercentages(vrdPct[c.Pct][0], vrdPct[c.Pct][1])
-	p.prcntMinRegsToOverride, p.prcntPrefixRegsToOverride = pm, pp
-	p.minOverrideSubnets, p.prefixOverrideSubnets = splitOverrideSubnets(vrdSubnets(c.Subs))
-	p.minOverrideSubnetsCumulativeWeights = processOverrideSubnetsWeights(p.minOverrideSubnets)
-	p.prefixOverrideSubnetsCumulativeWeights = processOverrideSubnetsWeights(p.prefixOverrideSubnets)
+	// the configuration values go through the constructor main.go uses for this zmq_auth_type (NewRegProcessor for CURVE,
+	// NewRegProcessorNoAuth for NULL); what that constructor built is what this processor works with
+	b := e.built(c)
+	p.enforceSubnetOverrides = b.enforceSubnetOverrides
+	p.prcntMinRegsToOverride, p.prcntPrefixRegsToOverride = b.prcntMinRegsToOverride, b.prcntPrefixRegsToOverride
+	p.minOverrideSubnets, p.prefixOverrideSubnets = b.minOverrideSubnets, b.prefixOverrideSubnets
+	p.minOverrideSubnetsCumulativeWeights = b.minOverrideSubnetsCumulativeWeights
+	p.prefixOverrideSubnetsCumulativeWeights = b.prefixOverrideSubnetsCumulativeWeights
+	p.exclusionsFromOverride = b.exclusionsFromOverride
+	return p
+}
+
+var vrdBuiltMu sync.Mutex
+var vrdBuiltCache = map[string]*RegProcessor{}
+
+// VerifBuiltCount reports how many registrars were built through the real constructors (auth, no-auth)
+var VerifBuiltCount [2]int
+
+func (e *vrdEnv) built(c vrdCfg) *RegProcessor {
+	vrdBuiltMu.Lock()
+	defer vrdBuiltMu.Unlock()
+	key := fmt.Sprintf("%v|%v|%s|%s|%s", c.Auth, c.Enforce, c.Pct, c.Subs, c.Excl)
+	if b := vrdBuiltCache[key]; b != nil {
+		return b
+	}
+	excl := []Subnet{}
 	for _, s := range vrdExcl[c.Excl] {
 		_, n, _ := net.ParseCIDR(s)
-		p.exclusionsFromOverride = append(p.exclusionsFromOverride, Subnet{CIDR: Ipnet{n}})
+		excl = append(excl, Subnet{CIDR: Ipnet{n}})
 	}
-	return p
+	os.Setenv("PHANTOM_SUBNET_LOCATION", filepath.Join(e.dir, "phantoms_false.toml"))
+	var b *RegProcessor
+	var err error
+	for try := 0; try < 50; try++ {
+		port := uint16(20000 + (os.Getpid()*7+len(vrdBuiltCache)*13+try*101)%30000)
+		if c.Auth {
+			b, err = NewRegProcessor("127.0.0.1", port, e.priv, false, nil, vrdMetrics, c.Enforce, vrdSubnets(c.Subs), excl, vrdPct[c.Pct][0], vrdPct[c.Pct][1])
+		} else {
+			b, err = NewRegProcessorNoAuth("127.0.0.1", port, vrdMetrics, c.Enforce, vrdSubnets(c.Subs), excl, vrdPct[c.Pct][0], vrdPct[c.Pct][1])
+		}
+		if err == nil {
+			break
+		}
+		if c.Auth {
+			zmq.AuthStop() // newRegProcessor leaves the authenticator running when the bind fails
+		}
+	}
+	if err != nil {
+		panic(fmt.Sprintf("registrar constructor (auth=%v): %v", c.Auth, err))
+	}
+	_ = b.Close()
+	if c.Auth {
+		VerifBuiltCount[0]++
+	} else {
+		VerifBuiltCount[1]++
+	}
+	vrdBuiltCache[key] = b
+	return b
 }
 
 type vrdConcrete struct {
